@@ -2,6 +2,7 @@ package scen
 
 import (
 	"bytes"
+	"context"
 	"errors"
 	"fmt"
 	"net"
@@ -102,8 +103,21 @@ func c08(r *Run) {
 		}
 		infl = append(infl, inflight{dst})
 		d := dst
+		// some of the node's own queries run under a deadline that passes during the run:
+		// nothing about it may leak to the shared socket
+		qTimeout := time.Duration(0)
+		if ch.Chance(1, 2, "inflight.deadline") {
+			qTimeout = time.Duration(ch.Range(1, 2000, "inflight.deadline.ms")) * time.Millisecond
+			r.Probe("own-query-with-deadline")
+		}
 		r.Go(fmt.Sprintf("ping%d", i), func() any {
-			return s.Query(r.ctx(), dht.NewAddr(d), "ping", dht.QueryInput{NumTries: 3})
+			ctx := r.ctx()
+			if qTimeout > 0 {
+				var cancel context.CancelFunc
+				ctx, cancel = context.WithTimeout(ctx, qTimeout)
+				defer cancel()
+			}
+			return s.Query(ctx, dht.NewAddr(d), "ping", dht.QueryInput{NumTries: 3})
 		})
 	}
 	r.Settle()
@@ -466,7 +480,12 @@ func isKnown(m string) bool {
 // c08attribute assigns a written datagram to the injected query it answers;
 // any non-query datagram that answers nothing is a violation.
 func c08attribute(r *Run, injected []*c08inj, wr *core.Write) {
-	r.Logf("write ->%s %s", wr.ToStr, r.Summ(wr.D, wr.B, wr.ToStr, true))
+	r.Logf("write ->%s %s failed=%v", wr.ToStr, r.Summ(wr.D, wr.B, wr.ToStr, true), wr.Failed)
+	if wr.Failed {
+		// this scenario injects no write errors: a write can only fail because something put a
+		// deadline on the shared socket; the datagram did not leave and answers nothing
+		return
+	}
 	if wr.D == nil {
 		r.Violate("undecodable-write", "server wrote bytes that are not a bencoded dict to %s", wr.ToStr)
 		return
